@@ -55,6 +55,8 @@ def shape_elem_kind(sh):
         return KBOOL
     if e.kind == 'bytes':
         return KBYTES(e.kw.get('cls', bytes))
+    if e.kind == 'str':
+        return KBYTES(str)
     if e.kind == 'obj':
         return KOBJ(e.kw['cls'])
     raise OutOfReach('element shape %r' % (e,))
